@@ -349,4 +349,75 @@ theorem reqsOf_idem (v : Val) (qs : List Req) : reqsOf v (reqsOf v qs) = reqsOf 
 theorem reqsOf_vals_subset (v : Val) (qs : List Req) {K : List Val} (h : ∀ q ∈ qs, q.v ∈ K) :
     ∀ q ∈ reqsOf v qs, q.v ∈ K := fun q hq => h q (List.mem_filter.mp hq).1
 
+/-! ### rule reload: a statistic is never handed to two rules of the new generation -/
+
+theorem not_mem_eraseIdx_of_nodup {l : List Nat} (h : l.Nodup) {k : Nat} {x : Nat} (hk : l[k]? = some x) :
+    x ∉ l.eraseIdx k := by
+  intro hm
+  obtain ⟨i, hik, hi⟩ := List.mem_eraseIdx_iff_getElem?.mp hm
+  have hkl : k < l.length := by
+    by_contra hn
+    rw [List.getElem?_eq_none (by omega)] at hk; cases hk
+  exact hik ((List.getElem?_inj hkl h).mp (by rw [hk, hi])).symm
+
+/-- the old controllers a plan draws on -/
+def planOlds (pl : List (Nat × Rule × Origin)) : List Nat := pl.filterMap fun x => x.2.2.old?
+
+theorem planOlds_cons (x : Nat × Rule × Origin) (pl : List (Nat × Rule × Origin)) :
+    planOlds (x :: pl) = match x.2.2.old? with | some g => g :: planOlds pl | none => planOlds pl := by
+  unfold planOlds
+  rw [List.filterMap_cons]
+  cases x.2.2.old? <;> rfl
+
+theorem gid_of_findIdx {old : List (Nat × Rule)} {p : Nat × Rule → Bool} {k : Nat} (h : old.findIdx? p = some k) :
+    (old.map Prod.fst)[k]? = some ((old[k]?.map (·.1)).getD 0) := by
+  obtain ⟨hk, _, _⟩ := List.findIdx?_eq_some_iff_getElem.mp h
+  rw [List.getElem?_map, List.getElem?_eq_getElem hk]; rfl
+
+/-- every old controller a plan draws on is one of the candidates, and none is drawn on twice -/
+theorem plan_olds (base : Nat) : ∀ (rs : List Rule) (old : List (Nat × Rule)) (i : Nat), (old.map Prod.fst).Nodup →
+    (planOlds (planFrom base old i rs)).Nodup ∧ ∀ g ∈ planOlds (planFrom base old i rs), g ∈ old.map Prod.fst := by
+  intro rs
+  induction rs with
+  | nil => intro old i _; simp [planFrom, planOlds]
+  | cons r rs ih =>
+    intro old i hnd
+    unfold planFrom
+    by_cases hv : (!validRule r) = true
+    · rw [if_pos hv]; exact ih old (i + 1) hnd
+    · rw [if_neg hv]
+      have step : ∀ (k : Nat) (p : Nat × Rule → Bool) (o : Nat → Origin) (ho : ∀ g, (o g).old? = some g),
+          old.findIdx? p = some k →
+          (planOlds ((base + i, r, o ((old[k]?.map (·.1)).getD 0)) :: planFrom base (old.eraseIdx k) (i + 1) rs)).Nodup ∧
+          ∀ g ∈ planOlds ((base + i, r, o ((old[k]?.map (·.1)).getD 0)) :: planFrom base (old.eraseIdx k) (i + 1) rs),
+            g ∈ old.map Prod.fst := by
+        intro k p o ho hf
+        have hg := gid_of_findIdx hf
+        have hnd' : ((old.eraseIdx k).map Prod.fst).Nodup := by
+          rw [← List.eraseIdx_map]; exact hnd.eraseIdx k
+        obtain ⟨i1, i2⟩ := ih (old.eraseIdx k) (i + 1) hnd'
+        rw [planOlds_cons]
+        simp only [ho]
+        constructor
+        · refine List.nodup_cons.mpr ⟨?_, i1⟩
+          intro hm
+          have := i2 _ hm
+          rw [← List.eraseIdx_map] at this
+          exact not_mem_eraseIdx_of_nodup hnd hg this
+        · intro g hgm
+          rcases List.mem_cons.mp hgm with rfl | hgm
+          · exact List.mem_of_getElem? hg
+          · have := i2 g hgm
+            rw [← List.eraseIdx_map] at this
+            exact List.mem_of_mem_eraseIdx this
+      cases h1 : old.findIdx? (fun o => ruleEquals o.2 r) with
+      | some k => exact step k _ Origin.same (fun _ => rfl) h1
+      | none =>
+        cases h2 : old.findIdx? (fun o => statReusable o.2 r) with
+        | some k => exact step k _ Origin.stat (fun _ => rfl) h2
+        | none =>
+          dsimp only
+          rw [planOlds_cons]
+          exact ih old (i + 1) hnd
+
 end Sentinel.Hot
